@@ -230,7 +230,8 @@ def sign_rule(prog, body, kind):
             allcmps.extend(BodyCtx.of(bd).cmps)
         for c in allcmps:
             for (L, R) in ((c.lhs, c.rhs), (c.rhs, c.lhs)):
-                isdata = L[0] == "idx" or (L[0] == "call" and L[1].endswith(("::get", "Index::index")))
+                isdata = L[0] == "idx" or (L[0] == "call" and L[1].endswith(("::get", "Index::index"))) or \
+                (L[0] == "field" and any(s_[0] == "call" and s_[1].endswith("Iterator::next") for s_ in subterms(L)))
                 if isdata and R[0] == "phi":
                     found = True
                     for a in R[2]:
@@ -261,7 +262,8 @@ def _argmax_tie_class(prog, body):
     cx = BodyCtx.of(body)
     for c in cx.cmps:
         for (L, R, rel) in ((c.lhs, c.rhs, c.rel), (c.rhs, c.lhs, guards.FLIP[c.rel])):
-            isdata = L[0] == "idx" or (L[0] == "call" and L[1].endswith(("::get", "Index::index")))
+            isdata = L[0] == "idx" or (L[0] == "call" and L[1].endswith(("::get", "Index::index"))) or \
+                (L[0] == "field" and any(s_[0] == "call" and s_[1].endswith("Iterator::next") for s_ in subterms(L)))
             if isdata and R[0] == "phi":
                 # the edge on which the running maximum is replaced by the element
                 upd = [d.bb for d in body.defs.get(R[1], []) if d.kind == "assign" and d.bb != 0]
